@@ -745,6 +745,7 @@ def generate_fns(repo):
             wraps.append(f"def canonical.{name}? : Option ({LEAF_TYPES[name]}) := some fn.{name}")
             items[key] = "read"
         else:
+            defs.append(f"def {name} : {LEAF_TYPES[name]} := fun _ _ => none   -- stub: the function is outside the translator's subset on this tree\n")
             wraps.append(f"def canonical.{name}? : Option ({LEAF_TYPES[name]}) := none   -- outside the translator's subset on this tree")
             items[key] = "unreadable"
     header = [
